@@ -81,6 +81,8 @@ Inductive err :=
 | EStrTooLong | EStrTooShort  (* byte arrays *)
 | EBool           (* invalid boolean value *)
 | EWrongEmpty     (* wrong kind of empty value (nil tags) *)
+| ENotInList      (* ListEnd outside of any list (errNotInList; Stream scripts only) *)
+| EWrongSize      (* ReadBytes: "input value has wrong size" *)
 | EFuel.          (* model only: recursion fuel exhausted; shown unreachable *)
 
 Inductive kind := KByte | KString | KList.
@@ -365,6 +367,43 @@ Fixpoint count_values_aux (fuel : nat) (b : bytes) (i : N) : rres N :=
     end
   end.
 Definition count_values (b : bytes) : rres N := count_values_aux (length b) b 0.
+
+(** AppendUint64, literally: 0 -> 0x80, below 128 the byte itself, else 0x80+k followed by the k
+    big-endian bytes *)
+Definition append_uint64 (n : N) : bytes :=
+  if n =? 0 then [Nb 128]
+  else if n <? 128 then [Nb n]
+  else let b := be_bytes n in Nb (128 + len b) :: b.
+
+(** intsize / headsize / IntSize / ListSize (the last one in uint64 arithmetic) *)
+Definition int_size_raw (n : N) : N := if n =? 0 then 1 else len (be_bytes n).
+Definition head_size (size : N) : N := if size <? 56 then 1 else 1 + int_size_raw size.
+Definition int_size (n : N) : N := if n <? 128 then 1 else 1 + int_size_raw n.
+Definition list_size (n : N) : N := (head_size n + n) mod 18446744073709551616.
+
+(** iterator.go: NewListIterator + Next/Value/Err until Next returns false or an element fails.
+    A failing element leaves [data] unchanged and yields the empty value with the error; the
+    caller (like the harness) stops there. *)
+Fixpoint iter_values (fuel : nat) (data : bytes) : list bytes * option rerr :=
+  match data with
+  | [] => ([], None)
+  | _ :: _ =>
+    match fuel with
+    | O => ([], Some RFuel)
+    | S f =>
+      match raw_read_kind data with
+      | RErr e => ([], Some e)
+      | ROk (_, ts, cs) =>
+        let '(vs, e) := iter_values f (drop (ts + cs) data) in (take (ts + cs) data :: vs, e)
+      end
+    end
+  end.
+Definition list_iterator (b : bytes) : rres (list bytes * option rerr) :=
+  match raw_read_kind b with
+  | RErr e => RErr e
+  | ROk (KList, ts, cs) => let d := take cs (drop ts b) in ROk (iter_values (length d) d)
+  | ROk _ => RErr RExpectedList
+  end.
 
 (** * Typed layer *)
 Inductive niltag := NoNil | NilAuto | NilString | NilList.
@@ -704,7 +743,7 @@ Definition s_list (s : stream) : sres N :=
 
 Definition s_list_end (s : stream) : sres unit :=
   match s_stack s with
-  | [] => SErr EFuel (* errNotInList: unreachable *)
+  | [] => SErr ENotInList (* errNotInList: unreachable from the typed decoders *)
   | l :: r => if 0 <? l then SErr ENotAtEOL else SOk tt (mkS (s_in s) r None)
   end.
 
@@ -788,3 +827,89 @@ Definition stream_decode_bytes (t : ty) (bs : bytes) : sres val :=
 (** rlp.EncodeToBytes / rlp.DecodeBytes on a type descriptor *)
 Definition encode_to_bytes (t : ty) (v : val) : bytes := enc_val t no_tag v.
 Definition decode_bytes (t : ty) (bs : bytes) : res val := exactly_one (dec_val t no_tag false bs).
+
+(** * Several top-level values in a row (NewStream(r, 0) + Stream.Decode in a loop, as the
+    transaction journal and the snapshot journal do): values until the first error; a clean end
+    is io.EOF.  Both transcriptions. *)
+Fixpoint stream_decode_seq (t : ty) (fuel : nat) (s : stream) : list val * err :=
+  match fuel with
+  | O => ([], EFuel)
+  | S f =>
+    match s_val t no_tag s with
+    | SErr e => ([], e)
+    | SOk v s' => let '(vs, e) := stream_decode_seq t f s' in (v :: vs, e)
+    end
+  end.
+Definition stream_decode_all (t : ty) (bs : bytes) : list val * err :=
+  stream_decode_seq t (S (length bs)) (mkS bs [] None).
+
+Fixpoint decode_seq (t : ty) (fuel : nat) (bs : bytes) : list val * err :=
+  match fuel with
+  | O => ([], EFuel)
+  | S f =>
+    match dec_val t no_tag false bs with
+    | Err e _ => ([], e)
+    | Ok v rest _ => let '(vs, e) := decode_seq t f rest in (v :: vs, e)
+    end
+  end.
+Definition decode_all (t : ty) (bs : bytes) : list val * err := decode_seq t (S (length bs)) bs.
+
+(** * Stream used by hand (custom DecodeRLP methods): one operation at a time *)
+Definition s_read_bytes (n : N) (s : stream) : sres bytes :=
+  sbind (s_kind s) (fun c s' =>
+  match c with
+  | (KByte, _, bv) => if n =? 1 then SOk [bv] (rearm s') else SErr EWrongSize
+  | (KString, size, _) =>
+    if n =? size then
+      sbind (s_read_full size s') (fun b s'' =>
+      if (size =? 1) && (bN (hd x00 b) <? 128) then SErr ECanonSize else SOk b s'')
+    else SErr EWrongSize
+  | (KList, _, _) => SErr EExpectedString
+  end).
+
+Inductive sop := OKind | OList | OListEnd | OBytes | OUint (bits : N) | OBool | ORaw | OBig
+               | OReadBytes (n : N).
+Inductive sout := RKind (k : kind) (size : N) | RNum (n : N) | RBytes (b : bytes) | RBool (b : bool)
+                | RUnit | RErrOut (e : err).
+
+Definition s_fin {A} (s : stream) (f : A -> sout) (r : sres A) : sout * option stream :=
+  match r with
+  | SOk v s' => (f v, Some s')
+  | SErr EEOL => (RErrOut EEOL, Some s)
+  | SErr e => (RErrOut e, None)
+  end.
+
+Definition s_step (op : sop) (s : stream) : sout * option stream :=
+  let fin {A} := @s_fin A s in
+  match op with
+  | OKind => fin (fun c : kind * N * byte => let '(k, size, _) := c in RKind k size) (s_kind s)
+  | OList => fin RNum (s_list s)
+  | OListEnd =>
+    match s_list_end s with
+    | SOk _ s' => (RUnit, Some s')
+    | SErr e => (RErrOut e, Some s)      (* ListEnd does not touch the state when it fails *)
+    end
+  | OBytes => fin RBytes (s_bytes s)
+  | OUint bits => fin RNum (s_uint bits s)
+  | OBool => fin RBool (s_bool s)
+  | ORaw => fin RBytes (s_raw s)
+  | OBig => fin RNum (s_big s)
+  | OReadBytes n => fin RBytes (s_read_bytes n s)
+  end.
+
+(** the script stops at the first error other than EOL / a failed ListEnd *)
+Fixpoint s_script (ops : list sop) (s : stream) : list sout :=
+  match ops with
+  | [] => []
+  | op :: r =>
+    match s_step op s with
+    | (o, Some s') => o :: s_script r s'
+    | (o, None) => [o]
+    end
+  end.
+
+(** NewStream(bytes.NewReader(b), 0) and NewListStream(bytes.NewReader(b), n) with n <= len b
+    (n = 0 leaves the limit to the reader's length) *)
+Definition new_stream (bs : bytes) : stream := mkS bs [] None.
+Definition new_list_stream (bs : bytes) (n : N) : stream :=
+  mkS (if n =? 0 then bs else take n bs) [] (Some (KList, n, x00)).
